@@ -90,6 +90,9 @@ type node struct {
 
 	snapReports []uint64
 	handedCS    []handedCS
+	heldMsgs    []*pb.Message // the Messages slice of the last Ready, as handed out (same backing array)
+	heldPtrs    []*pb.Message // its elements at hand-out time
+	heldBytes   [][]byte      // and their encodings
 
 	// application state machine (volatile copy; durable copy lives in disk)
 	appIndex uint64
@@ -427,6 +430,7 @@ func (w *World) start(n *node, applied uint64, first bool) {
 	n.appQ, n.aplQ, n.selfApp, n.selfApl, n.aplOrig = nil, nil, nil, nil, nil
 	n.snapReports = nil
 	n.handedCS = nil
+	n.heldMsgs, n.heldPtrs, n.heldBytes = nil, nil, nil
 	n.outNow, n.outAfter = nil, nil
 	n.appIndex = applied
 	n.appState = d.StateAt[applied]
